@@ -39,6 +39,7 @@ ASSUMPTIONS = [
     "FAULT_IN_EVENT_APPLY: on a path-style side no fault is injected into provider calls made while an event is being applied (open finding KF-20)",
     "FAULT_IN_CHANGE_FILL: faults on calls issued from SyncState.change() are exempt from the reporting clause only (open finding KF-21)",
     "AFTER_FAULT_THEN_RENAME: an after-effect fault is not placed in a window in which a rename follows it; part single: histories whose fault window renames something are enumerated with before-effect faults only (open finding KF-27)",
+    "DIRMOVE_ISOLATED: the id/id exception covers new files only (no mkdir inside a folder renamed in the same window): with a fault in between the other side keeps a stale copy of the folder (KF-07d)",
     "DIRMOVE_TOMB counts deletions of BOTH sides (a delete the engine carried out under a fault may leave a tombstone on the side it was applied to)",
     "CloudSync.authenticate is overridden (documented override point) to reconnect with the stored credentials",
     "a final tree different from the fault-free expectation is allowed (duplicates after an 'effect happened, caller saw failure' fault): the statement asks for convergence and no loss",
@@ -121,6 +122,9 @@ def budget(tier):
 
 def _winit(world):
     world.tomb_both = True
+    # a fault delays and re-orders the engine's own work: making a FOLDER inside a folder renamed in the same window is
+    # then the KF-07 / KF-34 family even when both sides are id-style (witness KF-07d); new files inside it are fine
+    world.strict_dirmove = True
 
 
 def gen(d, tier):
